@@ -390,10 +390,10 @@ def r20_6(chk, sb):
             limit = P.name(n) if nm in ("C", "X") else Lk + 1
             ok = hi == limit
             if not ok and nm == "V":
-                # for i in range(1, s + 1) under the guard not (L <= s): s + 1 <= L
+                # for i in range(1, s + 1) under the guard not (L <= s), canonically (s < L): s + 1 <= L
                 for c, pol in e.guards:
                     ca = c.as_atom()
-                    if ca and ca[0] == "le" and not pol and ca[1] == Lk and hi == ca[2] + 1:
+                    if ca and ca[0] == "lt" and pol and ca[2] == Lk and hi == ca[1] + 1:
                         ok = True
             if not ok:
                 bad.append(f"{nm}[{idx}] with {idx} < {hi}, allocated {limit}")
